@@ -103,7 +103,11 @@ type failingWriter struct {
 }
 
 func (w *failingWriter) Header() http.Header { return w.hdr }
-func (w *failingWriter) WriteHeader(s int)   { if w.status == 0 { w.status = s } }
+func (w *failingWriter) WriteHeader(s int) {
+	if w.status == 0 {
+		w.status = s
+	}
+}
 func (w *failingWriter) Write(p []byte) (int, error) {
 	w.writes++
 	if w.status == 0 {
